@@ -5,7 +5,7 @@ from .readerlib import both_modes, dump_dict
 
 ID = 'C08'
 TARGETS = ['theories/Properties/C08.vo']
-THEOREMS = []
+THEOREMS = core.theorems_of(ID)
 LEVEL = ('proved: the row decoder ignores any suffix of a payload (Layout/Sem.v dec_ignores_suffix, for the regenerated tables of every version) and an '
          'undeclared-to-peppi event code leaves the parser state unchanged apart from the byte count (Model/Parse.v); reader model tied to the code by '
          'differential runs; oracle on the real reader: the game with insertions / extra bytes equals the game without')
